@@ -175,8 +175,8 @@ def run(ctx):
     # ---- 2. replay
     X.warm_up()
     if X.fns()["needs_pyfma"]:
-        ctx.violation("default-path/gca_const_lat_intersection", "DefaultPathWithoutOptionalPackages",
-                      detail={"error": X.fns()["needs_pyfma"], "call": "gca_const_lat_intersection(gca, 0.5) with fma_disabled=True (default)",
+        ctx.violation("default-path/gca_const_lat_intersection", "Raises/pyfma",
+                      detail={"error": X.fns()["needs_pyfma"], "call": "uxarray.utils.computing._fmms(3., 2., 1., 1.) / gca_const_lat_intersection(gca, 0.5) with fma_disabled=True (default)",
                               "note": "pyfma is only in the optional extra 'math'; an exact stand-in is installed for the rest of this run"},
                       sig={"fn": "gca_const_lat_intersection", "kind": "env", "class": "pyfma", "replay_group": "exact", "arc_kind": "-", "short_arc": False},
                       replay={"kind": "env", "a": [1, 0, 0], "b": [0, 1, 1], "c": 0.5})
